@@ -494,11 +494,13 @@ func (c *Catalog) AddRequest(d directive.Directive) error {
 		return err
 	}
 
+	if v, ok := c.Interactions.Get(httpID); ok && v.(*HTTPInteraction).Request != nil {
+		return errors.New(jerr.NotUniqueDirective)
+	}
+
 	c.Interactions.Update(httpID, func(v Interaction) Interaction {
-		if v.(*HTTPInteraction).Request == nil {
-			v.(*HTTPInteraction).Request = &HTTPRequest{
-				Directive: d,
-			}
+		v.(*HTTPInteraction).Request = &HTTPRequest{
+			Directive: d,
 		}
 		return v
 	})
